@@ -17,6 +17,10 @@ func fromField(v ssa.Value, f *types.Var) bool {
 }
 
 func checkC07(p *load.Program, r *kit.Report) {
+	r.Rule("SENTINEL-EXACT", "sendBranchUpdate separates Find's `not found` answer -1 from the valid fork height 0 (a fork directly above the first header)", 1)
+	if sbu := p.Func(H, "Repository.sendBranchUpdate"); sbu != nil {
+		sentinelExactIn(p, r, "SENTINEL-EXACT", []*ssa.Function{sbu})
+	}
 	importRules(p, r, "C11", "after a restart a side branch that overtakes is announced from its fork point, which must still be held by its parent: load prunes before it links, so a branch forking below the retained depth is dropped instead of kept half-attached", 1, nil, "PRUNE-BEFORE-LINK")
 	importRules(p, r, "C08", "a submission that fails after the tip has changed leaves the new tip unannounced (the resubmission is a duplicate and sends nothing): errors are returned before any effect only", 12, nil, "NO-EFFECT-BEFORE-ERROR")
 	importRules(p, r, "C10", "a reorganisation is announced from the fork point, which IntersectHash finds by walking the parent links of both branches and reads through the parents' height maps: Clean must re-attach every branch to the rebuilt objects and keep in memory the headers every side branch forks from, or the switch is made silently (\"Intersect not found/missing\")", 2, nil, "COVER-ALL")
